@@ -1,3 +1,73 @@
-(* C01 placeholder until Proofs/WireProofs.v lands *)
-From Mdns Require Import Res Wire.
-Example C01_placeholder : True. Proof. exact I. Qed.
+(* C01  Decoding any datagram is safe, terminating and bounded.
+   Only statements here; every proof is `exact <lemma>` (lemmas in Proofs/WireProofs.v).
+   `decode` is the model of DnsIncoming::new (Model/Wire.v); `safe r` = r is neither Panic
+   nor OutOfFuel; every loop of the model runs on explicit fuel that is the datagram length
+   + 1, so "never OutOfFuel" is a bound on the number of loop iterations. *)
+From Coq Require Import List NArith Bool.
+From Mdns Require Import Res Bytes Utf8 Rec Wire TxtProofs WireProofs.
+Import ListNotations.
+Open Scope N_scope.
+
+(* For EVERY list of numbers (no well-formedness hypothesis at all), decoding ends with a
+   message or an error: it never panics (every index and slice is in range) and never
+   exhausts its loop budget of (length d + 1) iterations per loop level. *)
+Theorem C01_decode_total : forall d, safe (decode d).
+Proof. exact decode_total. Qed.
+
+(* Reading a name at any offset of any datagram is safe, and a successful read ends inside
+   the datagram, strictly after where it started (so callers always make progress). *)
+Theorem C01_read_name_safe : forall d off, safe (read_name d off).
+Proof. exact read_name_safe. Qed.
+
+Theorem C01_read_name_offset : forall d off nm o,
+  read_name d off = Ok (nm, o) -> off < o /\ o <= len d.
+Proof. exact read_name_offset. Qed.
+
+(* What is produced is bounded by the datagram, not by the 16-bit header counts or by
+   RDLENGTH: at most (len-12)/5 questions and (len-12)/11 records in total. *)
+Theorem C01_decode_bounded : forall d m, decode d = Ok m ->
+  12 <= len d /\
+  5 * N.of_nat (length (m_questions m)) +
+  11 * N.of_nat (length (m_answers m) + length (m_authorities m) + length (m_additionals m))
+  <= len d - 12.
+Proof. exact decode_bounded. Qed.
+
+(* No decoded name is longer than an explicit polynomial in the datagram length
+   (compression can legitimately expand a name; name_bound d = 2 * |d| * (|d| + 1)). *)
+Theorem C01_decode_names_bounded : forall d m, decode d = Ok m ->
+  Forall (fun q => (length (q_name q) <= name_bound d)%nat) (m_questions m) /\
+  Forall (fun r => (length (r_name r) <= name_bound d)%nat) (m_answers m) /\
+  Forall (fun r => (length (r_name r) <= name_bound d)%nat) (m_authorities m) /\
+  Forall (fun r => (length (r_name r) <= name_bound d)%nat) (m_additionals m).
+Proof. exact decode_names_bounded. Qed.
+
+(* Every record was read from bytes inside the datagram: reading one record consumes an
+   interval [off, o) with o <= len d of at least 11 bytes, and TXT / address data are
+   contiguous pieces of the datagram. *)
+Theorem C01_record_inside : forall d resp off r o,
+  read_one_rr d resp off = Ok (r, o) -> off + 11 <= o /\ o <= len d.
+Proof. exact read_one_rr_offset. Qed.
+
+Theorem C01_rr_data_inside : forall d resp off r o,
+  read_one_rr d resp off = Ok (Some r, o) ->
+  (forall t, r_data r = RTxt t -> sublist_of t d) /\
+  (forall a, r_data r = RAddr a -> sublist_of a d).
+Proof. exact rr_data_inside. Qed.
+
+(* Non-vacuity: the two historic witnesses (D1: HINFO with RDLENGTH 0 at the end of the
+   datagram; D2: pointer cycle through RDATA) now decode to Err in the model, and a valid
+   response decodes to a message. *)
+Example C01_witnesses :
+  decode [0;0;132;0;0;0;0;1;0;0;0;0; 0; 0;13;0;1; 0;0;0;0; 0;0] = Err /\
+  decode [0;0;132;0;0;0;0;2;0;0;0;0; 0; 0;99;0;1; 0;0;0;10; 0;4; 1;97;192;23;
+          192;23; 0;1;0;1; 0;0;0;10; 0;4; 1;2;3;4] = Err /\
+  is_ok (decode [0;0;132;0;0;0;0;1;0;0;0;0; 1;97;0; 0;1;0;1; 0;0;0;10; 0;4; 1;2;3;4]) = true.
+Proof. repeat split; vm_compute; reflexivity. Qed.
+
+Print Assumptions C01_decode_total.
+Print Assumptions C01_read_name_safe.
+Print Assumptions C01_read_name_offset.
+Print Assumptions C01_decode_bounded.
+Print Assumptions C01_decode_names_bounded.
+Print Assumptions C01_record_inside.
+Print Assumptions C01_rr_data_inside.
